@@ -78,17 +78,22 @@ Definition special_free (x : str) : bool :=
   forallb (fun c => negb (mem_ascii c (s "&<>""'"))) x.
 (* a string value can be written: escaping is on, or there is nothing to escape *)
 Definition str_dom (x : str) : bool := xmlEscapeChars o || special_free x.
+(* a scalar that can be an ATTRIBUTE value: the attribute switch of marshalMapToXmlIndent has no uint64 case
+   ("invalid attribute value"), so uint64 is not among them *)
 Definition attr_scalar (v : value) : bool :=
   match v with
   | VStr x => str_dom x
   | VFlt f | VJNum f => special_free f
-  | VBool _ | VInt _ | VI64 _ | VU64 _ => true
+  | VBool _ | VInt _ | VI64 _ => true
   | _ => false
   end.
+(* a scalar that can be an ELEMENT value or the text entry: the same, and uint64 *)
+Definition elem_scalar (v : value) : bool :=
+  match v with VU64 _ => true | _ => attr_scalar v end.
 Definition text_scalar (v : value) : bool :=
-  match v with VNil => true | _ => attr_scalar v end.
+  match v with VNil => true | _ => elem_scalar v end.
 (* JSON-shaped, distinct keys, keys valid XML names (attribute keys: prefix + name; the text key),
-   attribute entries non-nil scalars, the text entry a scalar *)
+   attribute entries non-nil scalars other than uint64, the text entry a scalar *)
 Fixpoint dom03 (v : value) : bool :=
   match v with
   | VMap vv =>
@@ -99,7 +104,7 @@ Fixpoint dom03 (v : value) : bool :=
                  else name_okb (fst kv) && dom03 (snd kv)) vv
   | VList l => forallb dom03 l
   | VNil => true
-  | _ => attr_scalar v
+  | _ => elem_scalar v
   end.
 (* the members of a list given to AnyXml: the key of a single-key map is used as a tag *)
 Definition any_member_ok (vv : value) : bool :=
